@@ -1,4 +1,4 @@
 (* Compiled from ocaml/runner/ so that model.ml lands there.  ExtrOcamlBasic only. *)
 From Coq Require Import Extraction ExtrOcamlBasic.
-From SSV Require Import Runner.PartialSig.
-Extraction "model.ml" PartialSig.step PartialSig.init_state PartialSig.dump.
+From SSV Require Import Runner.PartialSig Runner.Model.
+Extraction "model.ml" PartialSig.step PartialSig.init_state PartialSig.dump Model.vstep Model.vinit.
